@@ -1,6 +1,7 @@
 package rules
 
 import (
+	"go/types"
 	"fmt"
 	"go/constant"
 	"os"
@@ -43,7 +44,15 @@ func fileOps(fn *ssa.Function) (opens []*openSite, renames []*ssa.Call) {
 				continue
 			}
 			g := call.Call.StaticCallee()
-			if g == nil || g.Pkg == nil || g.Pkg.Pkg.Path() != "os" {
+			if g == nil || g.Pkg == nil {
+				continue
+			}
+			if g.Pkg.Pkg.Path() != "os" {
+				// a helper of the same package that opens the file named by one of its parameters with
+				// constant flags and returns it counts as an open with those flags
+				if w := openWrapper(g); w != nil && w.param < len(call.Call.Args) {
+					opens = append(opens, &openSite{fn: fn, call: call, path: call.Call.Args[w.param], flags: w.flags, known: true, file: call})
+				}
 				continue
 			}
 			switch g.Name() {
@@ -65,6 +74,51 @@ func fileOps(fn *ssa.Function) (opens []*openSite, renames []*ssa.Call) {
 		}
 	}
 	return
+}
+
+type openWrap struct {
+	param int
+	flags int
+}
+
+// openWrapper: g opens exactly one file, named by a parameter, with constant flags, and returns that file.
+func openWrapper(g *ssa.Function) *openWrap {
+	if g.Blocks == nil || g.Signature.Results().Len() == 0 {
+		return nil
+	}
+	if pt, ok := g.Signature.Results().At(0).Type().(*types.Pointer); !ok || !core.IsNamed(pt.Elem(), "os", "File") {
+		return nil
+	}
+	var found *openWrap
+	n := 0
+	for _, b := range g.Blocks {
+		for _, in := range b.Instrs {
+			call, ok := in.(*ssa.Call)
+			if !ok {
+				continue
+			}
+			cg := call.Call.StaticCallee()
+			if cg == nil || cg.Pkg == nil || cg.Pkg.Pkg.Path() != "os" || cg.Name() != "OpenFile" {
+				continue
+			}
+			n++
+			p, isParam := call.Call.Args[0].(*ssa.Parameter)
+			k, isConst := call.Call.Args[1].(*ssa.Const)
+			if !isParam || !isConst || k.Value == nil || k.Value.Kind() != constant.Int {
+				return nil
+			}
+			v, _ := constant.Int64Val(k.Value)
+			for i, gp := range g.Params {
+				if gp == p {
+					found = &openWrap{param: i, flags: int(v)}
+				}
+			}
+		}
+	}
+	if n != 1 {
+		return nil
+	}
+	return found
 }
 
 // fileValueAliases: the extracted *os.File and loads of the local it is stored in.
@@ -207,6 +261,9 @@ func runC20(c *core.Ctx, r *core.Reporter) {
 	for _, fn := range c.ModuleFuncs() {
 		if fn.Pkg == nil || fn.Pkg.Pkg.Path() != replPath || fn.Parent() != nil {
 			continue
+		}
+		if openWrapper(fn) != nil {
+			continue // judged at its callers
 		}
 		opens, renames := fileOps(fn)
 		if len(opens) == 0 {
